@@ -182,6 +182,23 @@ func (o *observer) observe(expr string, v V) {
 		t, _ := v.Text(getCalib())
 		o.tmpl.WriteString("[{{ " + expr + " }}]")
 		o.want.WriteString("[" + t + "]")
+		// the kind of the value, not only its text: + accepts same-typed operands only (C01)
+		switch v.K {
+		case refint.KStr:
+			o.tmpl.WriteString("{{ " + expr + " + '' }};")
+			o.want.WriteString(t + ";")
+		case refint.KInt:
+			o.tmpl.WriteString("{{ " + expr + " + 0 }};")
+			o.want.WriteString(t + ";")
+		case refint.KBool:
+			// then() exists for booleans only
+			o.tmpl.WriteString("{{ " + expr + ".then('T', 'F') }};")
+			if v.B {
+				o.want.WriteString("T;")
+			} else {
+				o.want.WriteString("F;")
+			}
+		}
 	}
 }
 
